@@ -724,6 +724,44 @@ def prove_eq_by_reduction(ctx: Ctx, goals, timeout_ms=20000, extra=(), rounds=2,
             g.detail = f"reduction left {len(rem.t)} terms; LIN {r} with {len(used)}+{len(extra_lemmas)} lemmas"
 
 
+def input_model(ctx: Ctx, names, timeout_ms=10000):
+    """solver-made witness candidate: a model of the QF_LRA abstraction of (assumptions + path condition), read off at the
+    scalar inputs `names`. The abstraction is exact for path conditions that are linear in those inputs (solver policy,
+    thresholds); otherwise the candidate simply fails to follow the path when it is executed. -> {name: float} or None"""
+    L = Lin(ctx, timeout_ms=timeout_ms)
+    allA = list(ctx.assumptions) + ctx.path_assumptions()
+    for a in allA:
+        L.note_var_facts(a)
+    for a in allA:
+        if a.p.has_I():
+            continue
+        L.s.add(L.atom(a.kind, a.p))
+    # keep away from the boundaries of the path condition where that is possible (integers get rounded afterwards)
+    L.s.push()
+    for a in ctx.path_assumptions():
+        if a.kind in ("ge", "gt") and not a.p.has_I():
+            L.s.add(L.lin(a.p) >= 1)
+    r = str(L.s.check())
+    if r != "sat":
+        L.s.pop()
+        r = str(L.s.check())
+        if r != "sat":
+            return None
+    m = L.s.model()
+    out = {}
+    for idx, vi in enumerate(ctx.vars):
+        if vi.kind == "input" and vi.name in names:
+            x = L.mv.get(((idx, 1),))
+            if x is None:
+                continue
+            val = m.eval(x, model_completion=True)
+            try:
+                out[vi.name] = float(val.numerator_as_long()) / float(val.denominator_as_long())
+            except Exception:  # noqa
+                continue
+    return out
+
+
 def consistent(ctx: Ctx, timeout_ms=10000) -> str:
     """vacuity guard: the (abstracted) assumptions and path condition must not be contradictory.
     Returns 'sat' / 'unknown' / 'unsat'."""
